@@ -16,6 +16,8 @@ structure DSt where
   prevUpd : Bool := false
   closed : Bool := false
   pending : Bool := false
+  /-- the injected pacer's Close returns an error -/
+  pacerCloseErr : Bool := false
 
 def natLe (fs : List (String × String)) (k : String) (max : Nat) : Option Nat :=
   match getNat fs k with
@@ -58,8 +60,10 @@ def step (d : DSt) (ts : List String) : DSt × List String :=
   | some "cfg" =>
     match natLe fs "init" 2000000000, natLe fs "min" 2000000000, natLe fs "max" 2000000000, lookup fs "pacer", lookup fs "ext", d.cfg with
     | some i, some mn, some mx, some pk, some ext, none =>
-      if (pk != "noop" && pk != "leaky") || (ext != "0" && ext != "1") || mn < 1 || mn > i || i > mx then (d, ["bad-op"])
-      else ({ d with cfg := some { min := mn, max := mx, init := i }, prev := i }, [])
+      let pcerr := (lookup fs "pcerr").getD "0"
+      if (pk != "noop" && pk != "leaky") || (ext != "0" && ext != "1") || (pcerr != "0" && pcerr != "1") ||
+          mn < 1 || mn > i || i > mx then (d, ["bad-op"])
+      else ({ d with cfg := some { min := mn, max := mx, init := i }, prev := i, pacerCloseErr := pcerr == "1" }, [])
     | _, _, _, _, _, _ => (d, ["bad-op"])
   | some "sent" =>
     match natLe fs "n" 2000, natLe fs "size" 1460, natLe fs "gap" 10000000, d.cfg with
@@ -86,7 +90,12 @@ def step (d : DSt) (ts : List String) : DSt × List String :=
     | _, _, _ => (d, ["bad-op"])
   | some "close" =>
     match d.cfg with
-    | some _ => if d.closed then (d, ["bad-op"]) else ({ d with closed := true }, [])
+    | some _ =>
+      -- a second Close closes the already closed ack pipes again: `close of closed channel`
+      -- (the code as it is; the estimator stays closed)
+      if d.closed then (d, ["close PANIC"]) else
+      match closeG d.pacerCloseErr with
+      | (closedNow, err) => ({ d with closed := closedNow }, [if err then "close err=pacer" else "close err=nil"])
     | none => (d, ["bad-op"])
   | _ => (d, ["bad-op"])
 
